@@ -58,6 +58,14 @@ func c07Probes() []fo.Decl {
 		mk("ZwGa", "type ZwGa<T> = {ZwI: T; ZwN: int}"),
 		mk("zwGEarly", "let zwGEarly () =\n  {ZwI=\"e\"; ZwN=2}"),
 		mk("zwGMk", "let zwGMk (c:ZwGa<string>) =\n  {ZwI=c.ZwI; ZwN=c.ZwN + 1}"),
+		// a global, a later global defined by a match whose arm binder carries the first one's name
+		// (with another type), and a user of the first global: what the binder was must not outlive
+		// its arm, wherever the match-defined global stands
+		mk("zwGlob", "let zwGlob = \"s\""),
+		mk("ZwU ZwA ZwB", "type ZwU =\n| ZwA of int\n| ZwB"),
+		mk("zwUse", "let zwUse () =\n  zwGlob + \"!\""),
+		mk("zwByMatch", "let zwByMatch =\n  match ZwA 3 with\n  | ZwA zwGlob -> zwGlob + 1\n  | _ -> 0"),
+		mk("zwUse2", "let zwUse2 (a:string) =\n  [a; zwGlob]"),
 	}
 }
 
@@ -354,9 +362,18 @@ func runC07(r *core.Run, tier string) {
 		obs[i] = c07Run(fc, env, d, jobs[i].h, pools[jobs[i].pool].name)
 		os.RemoveAll(d)
 	})
+	// the reference of a pool is its base order; when fc rejects the base order but accepts another
+	// history of the same definitions, that history becomes the reference (and the rejection of the
+	// base is itself a dependence on the order)
 	baseObs := map[int]*c07Obs{}
 	for i, j := range jobs {
 		if j.h.kind == "base" {
+			baseObs[j.pool] = obs[i]
+		}
+	}
+	for i, j := range jobs {
+		if b := baseObs[j.pool]; b != nil && b.exit != 0 && b.exit != 97 && obs[i].exit == 0 && !obs[i].wall {
+			r.Count("pools_whose_base_order_is_rejected_but_another_history_accepted", 1)
 			baseObs[j.pool] = obs[i]
 		}
 	}
